@@ -331,6 +331,10 @@ pub fn gen_c03(em: &mut Emitter, rng: &mut Rng) {
     if em.mine(base + 3) {
         edge_value_flows::<Ps>(em, &mut rng.sub(9102), "ps");
     }
+    if em.mine(base + 4) {
+        crate::c06::revocation_claim_position::<Bbs>(em, &mut rng.sub(9103), "bbs", "c03");
+        crate::c06::revocation_claim_position::<Ps>(em, &mut rng.sub(9104), "ps", "c03");
+    }
     if em.mine(base) {
         crate::c05::c09_representations::<Bbs>(em, &mut rng.sub(9005), "bbs", "c03");
         crate::c05::equality_positions::<Bbs>(em, &mut rng.sub(9007), "bbs", "c03");
